@@ -11,16 +11,17 @@
     - `i64::try_from(isize)` / `isize::try_from(i64)` (points, rectangle sizes) cannot fail on a
       64-bit target and are identities;
     - the error value is a message only (the context stack is not modelled);
-    - `DepOrder { stack, seen }`: `seen` always holds exactly the members of `stack` (both are
-      written together, nothing is removed), so membership is tested on the stack;
+    - `DepOrder { stack, seen, pending }` is the model of property C17 (Order/DepOrderFixed.v),
+      not a second transcription;
     - in `export_layout` the pair (`layers : HashMap<(i16,i16), Vec<&Element>>`, `layerorder :
       Vec<(i16,i16)>`) is one association list in first-seen order (the map is only looked up,
       never iterated);
     - arithmetic overflow is the debug-build behaviour ([Panic]);
     - on `Err` the importer's partially updated `Layers` (shared through the `Ptr` the caller
       passed in) is not observable in the model. *)
-From Coq Require Import ZArith List String Bool.
+From Coq Require Import ZArith NArith List String Bool.
 From L21 Require Import Base.F64 Base.Outcome Raw.RawData.
+From L21 Require Order.DepOrder Order.DepOrderFixed.
 Import ListNotations.
 Local Open Scope string_scope.
 Local Open Scope list_scope.
@@ -184,17 +185,21 @@ Definition export_group (g : lpkey * list element) : res playershapes :=
   let? pss := mapM export_element (snd g) in
   Ok (pls_of (mkplayer (fst (fst g)) (snd (fst g))) pss).
 
-(** The rotation field.  [export_rotation] is the code after the repair: the raw angle is in
-    counter-clockwise degrees, the schema stores whole clockwise degrees in [0, 360):
-    `Some(a) if a.is_finite() && a.fract() == 0.0 => (-a).rem_euclid(360.0) as i32`, any other
-    angle is an `Err`.  [export_rotation_orig] is the code as found: constant 0. *)
+(** The rotation field of `export_instance`.
+    [export_rotation] is the code after the repair (work/c14/fix-export-rotation.patch): the angle is
+    written as it is,
+      `None => 0`,
+      `Some(a) if a.fract() == 0.0 && a >= f64::from(i32::MIN) && a <= f64::from(i32::MAX) => a as i32`,
+      any other angle (fractional, NaN, infinite, out of the `i32` range) => `self.fail(..)`.
+    (`fract` of an infinity or a NaN is NaN, which is not `== 0.0`; `-0.0` passes and casts to 0.)
+    [export_rotation_orig] is the code as found: `rotation_clockwise_degrees: 0`. *)
 Definition export_rotation (a : option Z) : res Z :=
   match a with
   | None => Ok 0
   | Some b =>
     match f64_int_value b with
-    | Some v => Ok ((- v) mod 360)
-    | None => Err "rotation is not a whole number of degrees"
+    | Some v => if i32_okb v then Ok v else Err "angle is not a whole number of degrees that fits the schema"
+    | None => Err "angle is not a whole number of degrees that fits the schema"
     end
   end.
 Definition export_rotation_orig (a : option Z) : res Z := Ok 0.
@@ -253,28 +258,30 @@ Definition export_cell (xrot : option Z -> res Z) (ly : layers) (ord : oracle) (
              end in
   Ok (mkpcell (c_name c) false ab lay).
 
-(** DepOrder::order / push (data.rs).  [fuel] bounds the recursion DEPTH; running out of it
-    stands for unbounded recursion (a cell that reaches itself overflows the stack). *)
+(** DepOrder::order / push (data.rs): the orderer with `seen` and `pending` sets that returns
+    an error when a cell is met again while its own instances are being visited.  It is the
+    model of property C17, [DepOrderFixed.order_checked] with [all_defined] (a `Ptr<Cell>`
+    always resolves), run on the graph "cell index -> target indices of its layout's instances,
+    in order" from the roots "every cell of the library, in listing order".  [fuel] bounds the
+    recursion DEPTH; depth `number of cells + 1` always suffices (C17: order_checked_bounded). *)
 Definition cell_deps (c : cell) : list nat :=
   match c_layout c with
   | Some l => map i_cell (lay_insts l)
   | None => []
   end.
-Fixpoint dep_push (fuel : nat) (cells : list cell) (stack : list nat) (i : nat) : res (list nat) :=
-  match fuel with
-  | O => OutOfFuel
-  | S f =>
-    if existsb (Nat.eqb i) stack then Ok stack
-    else
-      match nth_error cells i with
-      | None => Err "model: dangling cell index (not representable in the Rust data)"
-      | Some c =>
-        let? st := foldM (dep_push f cells) (cell_deps c) stack in
-        Ok (st ++ [i])
-      end
+Definition cell_deps_N (cells : list cell) (x : N) : list N :=
+  match nth_error cells (N.to_nat x) with
+  | Some c => map N.of_nat (cell_deps c)
+  | None => []
   end.
 Definition dep_order (cells : list cell) : res (list nat) :=
-  foldM (dep_push (S (List.length cells)) cells) (seq 0 (List.length cells)) [].
+  match DepOrderFixed.order_checked (S (List.length cells)) DepOrder.all_defined (cell_deps_N cells)
+                                    (map N.of_nat (seq 0 (List.length cells))) with
+  | DepOrder.Ok out => Ok (map N.to_nat out)
+  | DepOrder.Err => Err "Cell instantiates itself, directly or through other cells"
+  | DepOrder.Panic => Panic
+  | DepOrder.OutOfFuel => OutOfFuel
+  end.
 
 Definition to_proto_with (xrot : option Z -> res Z) (ord : oracle) (L : library) : res plib :=
   let? u := export_units (lib_units L) in
@@ -285,10 +292,12 @@ Definition to_proto_with (xrot : option Z -> res Z) (ord : oracle) (L : library)
                                end) order in
   Ok (mkplib (lib_name L) u cells false).
 
-(** the code in the working tree (with the rotation repair), and the code with the rotation
-    field as found *)
+(** [to_proto]: the exporter with the rotation repair; [to_proto_orig]: the exporter as found
+    (rotation field constant 0).  Which of the two stands for the tree under test is decided
+    on every run from the text of `export_instance` (tools/props/c14.py: model_variant). *)
 Definition to_proto : library -> res plib := to_proto_with export_rotation sorted_by_layer.
 Definition to_proto_orig : library -> res plib := to_proto_with export_rotation_orig sorted_by_layer.
+Definition to_proto_v (repaired : bool) : library -> res plib := if repaired then to_proto else to_proto_orig.
 
 (** * ProtoImporter *)
 Definition import_units (u : Z) : res units :=
@@ -380,16 +389,12 @@ Fixpoint cm_get (m : cellmap) (name : string) : option nat :=
   | (k, v) :: r => if String.eqb name k then Some v else cm_get r name
   end.
 
-(** The angle.  [import_rotation] is the code after the repair:
-    `match rot.rem_euclid(360) { 0 => None, cw => Some(f64::from(360 - cw)) }`;
-    [import_rotation_orig] the code as found: `if rot == 0 { None } else { Some(f64::from(rot)) }`. *)
+(** The angle: `if rot == 0 { None } else { Some(f64::from(rot)) }` (the field is copied 1:1;
+    the schema's default 0 becomes "no angle"). *)
 Definition import_rotation (rot : Z) : option Z :=
-  let cw := rot mod 360 in
-  if cw =? 0 then None else Some (f64_of_int (360 - cw)).
-Definition import_rotation_orig (rot : Z) : option Z :=
   if rot =? 0 then None else Some (f64_of_int rot).
 
-Definition import_instance (irot : Z -> option Z) (cm : cellmap) (pi : pinstance) : res instance :=
+Definition import_instance (cm : cellmap) (pi : pinstance) : res instance :=
   match pi_cell pi with
   | None | Some None => Err "Invalid proto::Instance with null Cell"
   | Some (Some (RefExternal _ _)) => Err "Import of external proto-references not supported"
@@ -399,7 +404,7 @@ Definition import_instance (irot : Z -> option Z) (cm : cellmap) (pi : pinstance
     | Some k =>
       match pi_origin pi with
       | None => Err "Invalid proto::Instance with no Location"
-      | Some o => Ok (mkinst (pi_name pi) k (import_point o) (pi_reflect pi) (irot (pi_rot pi)))
+      | Some o => Ok (mkinst (pi_name pi) k (import_point o) (pi_reflect pi) (import_rotation (pi_rot pi)))
       end
     end
   end.
@@ -410,8 +415,8 @@ Definition import_annotation (t : ptext) : res textelem :=
   | None => Err "Invalid positionless proto::TextElement"
   end.
 
-Definition import_layout (irot : Z -> option Z) (ly : layers) (cm : cellmap) (l : playout) : res (layers * layout) :=
-  let? insts := mapM (import_instance irot cm) (ply_insts l) in
+Definition import_layout (ly : layers) (cm : cellmap) (l : playout) : res (layers * layout) :=
+  let? insts := mapM (import_instance cm) (ply_insts l) in
   let? (ly1, elems) := foldM (fun st s => let '(ly, acc) := st in
                                          let? (ly', es) := import_layer_shapes ly s in
                                          Ok (ly', acc ++ es))
@@ -419,9 +424,9 @@ Definition import_layout (irot : Z -> option Z) (ly : layers) (cm : cellmap) (l 
   let? annots := mapM import_annotation (ply_annots l) in
   Ok (ly1, mklayout (ply_name l) insts elems annots).
 
-Definition import_cell (irot : Z -> option Z) (ly : layers) (cm : cellmap) (c : pcell) : res (layers * cell) :=
+Definition import_cell (ly : layers) (cm : cellmap) (c : pcell) : res (layers * cell) :=
   let? (ly1, lay) := match pc_layout c with
-                      | Some l => let? (ly', x) := import_layout irot ly cm l in Ok (ly', Some x)
+                      | Some l => let? (ly', x) := import_layout ly cm l in Ok (ly', Some x)
                       | None => Ok (ly, None)
                       end in
   let? (ly2, ab) := match pc_abs c with
@@ -431,16 +436,13 @@ Definition import_cell (irot : Z -> option Z) (ly : layers) (cm : cellmap) (c : 
   Ok (ly2, mkcell (pc_name c) ab lay).
 
 (** import_lib.  [ly0] is the `layers` argument of `Library::from_proto` (`None` = [[]]). *)
-Definition import_step (irot : Z -> option Z) (st : layers * cellmap * list cell) (c : pcell)
+Definition import_step (st : layers * cellmap * list cell) (c : pcell)
   : res (layers * cellmap * list cell) :=
   let '(ly, cm, cells) := st in
-  let? (ly', c') := import_cell irot ly cm c in
+  let? (ly', c') := import_cell ly cm c in
   Ok (ly', (pc_name c, List.length cells) :: cm, cells ++ [c']).
 
-Definition from_proto_with (irot : Z -> option Z) (ly0 : layers) (P : plib) : res library :=
+Definition from_proto (ly0 : layers) (P : plib) : res library :=
   let? u := import_units (pb_units P) in
-  let? (ly, _, cells) := foldM (import_step irot) (pb_cells P) (ly0, [], []) in
+  let? (ly, _, cells) := foldM import_step (pb_cells P) (ly0, [], []) in
   Ok (mklib (pb_domain P) u ly cells).
-
-Definition from_proto : layers -> plib -> res library := from_proto_with import_rotation.
-Definition from_proto_orig : layers -> plib -> res library := from_proto_with import_rotation_orig.
